@@ -323,6 +323,36 @@ def games(shard, rabin=False, modes=MODES):
     return b_games(shard, rabin, modes)
 
 
+def game_sequences(shard, rabin=False, length=4):
+    """Sequences of games sharing declarations and actions, to be solved
+    one after the other in one automaton: modes rotated, liveness changed."""
+    buf = {}
+    for c in games(shard, rabin):
+        key = (repr(c['E']), repr(c['S']))
+        buf.setdefault(key, []).append(c)
+    for key, lst in buf.items():
+        # lst is ordered ... P, G, mode (mode fastest); take steps so that
+        # consecutive steps differ in mode and, every other step, in P/G
+        n = len(lst)
+        k = 0
+        for start in range(0, n, length):
+            chunk = lst[start:start + length]
+            if len(chunk) < 2:
+                continue
+            rot = (start // length) % len(chunk)
+            chunk = chunk[rot:] + chunk[:rot]
+            if (start // length) % 2 and start + 2 * length <= n:
+                # interleave with the next block (different P/G)
+                nxt = lst[start + length:start + 2 * length]
+                chunk = [x for pair in zip(chunk, nxt) for x in pair][:length + 2]
+            base = dict(chunk[0])
+            for f in ('P', 'G', 'moore', 'plus_one'):
+                base.pop(f)
+            base['steps'] = [dict(P=c['P'], G=c['G'], moore=c['moore'],
+                                  plus_one=c['plus_one']) for c in chunk]
+            yield base
+
+
 def scope_text(tier, seed):
     return dict(
         familyA='x Boolean env, y Boolean component; classes A1 E(x,x\')/S(y,y\'), '
